@@ -1,6 +1,6 @@
 (* C15 - property theorems (statements only; proofs live in theories/). *)
 From Coq Require Import ZArith List.
-From Shampoo Require Import SplitRecovery SplitRecoveryProofs SplitChecker.
+From Shampoo Require Import SplitRecovery SplitRecoveryProofs SplitChecker SplitMinimal.
 Import ListNotations.
 Open Scope Z_scope.
 
@@ -30,6 +30,22 @@ Theorem C15_split_rejects_nonflat :
 Proof. exact split_rejects_nonflat_shard. Qed.
 Print Assumptions C15_split_rejects_nonflat.
 
+(* no decomposition into such slabs has fewer pieces: every ordered partition l of [s,e) (offsets relative
+   to s, as in C15_checker_sound) into strict slabs - `strict_slab` = `slab` restricted to a level d that
+   exists, i.e. without the catch-all 1-D constructor slab_scalar except for order-0 shapes; the model's own
+   pieces are strict slabs (SplitMinimal.split_minimum_attained), and against plain `slab` the statement
+   would be false (SplitMinimal.slab_not_minimal) - is at least as long as the model's output *)
+Theorem C15_split_minimal :
+  forall sh, allpos sh -> forall s e, 0 <= s -> s <= e -> e <= prodl sh ->
+  forall l : list piece,
+    chain l 0 (e - s) ->
+    Forall (fun p => strict_slab sh (s + poff p) (s + poff p + plen p) (pshape p)) l ->
+    (length (rec sh 0 s e) <= length l)%nat.
+Proof. exact split_minimal. Qed.
+Print Assumptions C15_split_minimal.
+
+(* `length impl = length (rec shape 0 s e)` means "has the minimal number of pieces" by C15_split_minimal
+   (SplitMinimal.checked_output_minimal states the combination) *)
 Theorem C15_checker_sound :
   forall shape s e impl, C15_checkb shape s e impl = true ->
   chain impl 0 (e - s)
